@@ -200,6 +200,8 @@ impl StorageEngine {
             )));
         }
 
+        #[cfg(inputlayer_verif)]
+        crate::verif_hooks::point("create.after_dropping_check");
         // Atomic check-and-insert to prevent TOCTOU race
         use dashmap::mapref::entry::Entry;
         let entry = self.knowledge_graphs.entry(name.to_string());
@@ -224,6 +226,8 @@ impl StorageEngine {
             }
         }
 
+        #[cfg(inputlayer_verif)]
+        crate::verif_hooks::point("create.after_map_insert");
         // Update system metadata
         self.save_knowledge_graphs_metadata()?;
 
@@ -258,9 +262,13 @@ impl StorageEngine {
         // Add to tombstone BEFORE removing from DashMap (ordering matters for RC-2)
         self.dropping_kgs.write().insert(name.to_string());
 
+        #[cfg(inputlayer_verif)]
+        crate::verif_hooks::point("drop.after_tombstone");
         // Remove from in-memory DashMap (instant)
         self.knowledge_graphs.remove(name);
 
+        #[cfg(inputlayer_verif)]
+        crate::verif_hooks::point("drop.after_map_remove");
         // Save metadata JSON (small file write, fast)
         self.save_knowledge_graphs_metadata()?;
 
@@ -279,11 +287,15 @@ impl StorageEngine {
     pub fn finish_drop_knowledge_graph(&self, cleanup: KgDropCleanup) {
         let start = Instant::now();
         let prefix = format!("{}:", cleanup.name);
+        #[cfg(inputlayer_verif)]
+        crate::verif_hooks::point("finish_drop.enter");
         if let Ok(shards) = cleanup.persist.list_shards() {
             for shard in shards.iter().filter(|s| s.starts_with(&prefix)) {
                 let _ = cleanup.persist.delete_shard(shard);
             }
         }
+        #[cfg(inputlayer_verif)]
+        crate::verif_hooks::point("finish_drop.after_shards");
         if cleanup.data_dir.exists() {
             let _ = fs::remove_dir_all(&cleanup.data_dir);
             // Sync parent directory to ensure directory deletion is durable
@@ -293,6 +305,8 @@ impl StorageEngine {
                 }
             }
         }
+        #[cfg(inputlayer_verif)]
+        crate::verif_hooks::point("finish_drop.before_tombstone_removal");
         // Remove tombstone - name is now safe to reuse
         self.dropping_kgs.write().remove(&cleanup.name);
         let elapsed_ms = start.elapsed().as_millis() as u64;
@@ -441,6 +455,8 @@ impl StorageEngine {
             }
         }
 
+        #[cfg(inputlayer_verif)]
+        crate::verif_hooks::point("ins.after_view_check");
         // Check arity consistency
         let new_arity = tuples.first().map_or(0, super::value::Tuple::arity);
 
@@ -474,6 +490,8 @@ impl StorageEngine {
             return Err(StorageError::KnowledgeGraphNotFound(kg.to_string()));
         }
 
+        #[cfg(inputlayer_verif)]
+        crate::verif_hooks::point("ins.after_guard");
         // Generate shard name and logical time
         let shard = format!("{kg}:{relation}");
         let time = self.logical_time.fetch_add(1, Ordering::SeqCst);
@@ -497,8 +515,12 @@ impl StorageEngine {
             "persist_append_complete"
         );
 
+        #[cfg(inputlayer_verif)]
+        crate::verif_hooks::point("ins.after_persist");
         // Release dropping_kgs guard before acquiring KG write lock
         drop(dropping_guard);
+        #[cfg(inputlayer_verif)]
+        crate::verif_hooks::point("ins.before_kg_lock");
 
         // Update in-memory state
         let db = self
@@ -585,6 +607,8 @@ impl StorageEngine {
             return Err(StorageError::KnowledgeGraphNotFound(kg.to_string()));
         }
 
+        #[cfg(inputlayer_verif)]
+        crate::verif_hooks::point("del.after_guard");
         // Generate shard name and logical time
         let shard = format!("{kg}:{relation}");
         let time = self.logical_time.fetch_add(1, Ordering::SeqCst);
@@ -599,8 +623,12 @@ impl StorageEngine {
         self.persist.ensure_shard(&shard)?;
         self.persist.append(&shard, &updates)?;
 
+        #[cfg(inputlayer_verif)]
+        crate::verif_hooks::point("del.after_persist");
         // Release dropping_kgs guard before acquiring KG write lock
         drop(dropping_guard);
+        #[cfg(inputlayer_verif)]
+        crate::verif_hooks::point("del.before_kg_lock");
 
         // Update in-memory state
         let db = self
@@ -2162,6 +2190,8 @@ impl KnowledgeGraph {
             new_snapshot.max_result_rows = self.max_result_rows;
             new_snapshot.max_query_cost = self.max_query_cost;
             new_snapshot.hnsw_search_fn = hnsw_fn;
+            #[cfg(inputlayer_verif)]
+            crate::verif_hooks::point("snap.before_store");
             self.snapshot.store(Arc::new(new_snapshot));
 
             // Lock drops here AFTER publication - this is the fix for TOCTOU
@@ -2175,6 +2205,8 @@ impl KnowledgeGraph {
             );
             new_snapshot.max_result_rows = self.max_result_rows;
             new_snapshot.max_query_cost = self.max_query_cost;
+            #[cfg(inputlayer_verif)]
+            crate::verif_hooks::point("snap.before_store");
             self.snapshot.store(Arc::new(new_snapshot));
         }
 
